@@ -119,7 +119,10 @@ def _worker(job, chk):
     if tier == "quick":
         # (a) one interruption anywhere, every op1;op2   (b) one interruption + one ordinary
         # deviation, op2 from the probe set, one interruption type
-        plans = [(pairs, INT_ONLY, 1), ([(alpha[i1], o2) for o2 in probes], INT_PLUS1, 2)]
+        # (c) op1 interrupted on a connection an earlier call left open: get; op1; probe
+        warm = next(o for o in alpha if o.label.replace(" ", "") == "get('a')")
+        plans = [(pairs, INT_ONLY, 1), ([(alpha[i1], o2) for o2 in probes], INT_PLUS1, 2),
+                 ([(warm, alpha[i1], o3) for o3 in probes], INT_ONLY, 1)]
     else:
         triples = [(alpha[i1], o2, o3) for o2 in seconds for o3 in probes]
         plans = [(pairs, INT_PLUS, 2), (triples, INT_ONLY, 1)]
@@ -164,7 +167,7 @@ def run(chk):
     chk.assumptions = ["an interruption is raised by the socket call itself (gevent-style) either before or after the call's effect",
                        "at most one interruption per history"]
     chk.info["interruption_points"] = list(simnet.ALL_POINTS)
-    chk.info["plans"] = ("one interruption over all op1;op2 + one interruption and one ordinary deviation over op1;probe"
+    chk.info["plans"] = ("one interruption over all op1;op2 and over get;op1;probe + one interruption and one ordinary deviation over op1;probe"
                          if chk.tier == "quick" else
                          "one interruption and <=1 ordinary deviation over all op1;op2 + one interruption over op1;op2;probe")
     runner.parallel(chk, _worker, _jobs(chk.tier))
